@@ -81,7 +81,7 @@ type Case struct {
 
 var (
 	originPool = []string{"https://a.example", "https://b.example", "http://c.example:8080", "null"}
-	headerPool = []string{"Content-Type", "X-Custom", "Authorization", "X-Api-Key", "x-token", "content-language", "X-Token-2", "X-Cache~Key", "X_Req^Id", "Accept"}
+	headerPool = []string{"Content-Type", "X-Custom", "Authorization", "X-Api-Key", "x-token", "content-language", "X-Token-2", "X-Cache~Key", "X_Req^Id", "X:Trace", "X@Id", "Accept"} // incl. names with bytes no header token may hold
 	patterns   = []string{"/a", "/b/{id}", "/c"}
 	witness    = map[string]string{"/a": "/a", "/b/{id}": "/b/7", "/c": "/c"}
 	methodSets = [][]string{{"GET"}, {"POST"}, {"GET", "POST"}, {"DELETE", "PUT"}, {"GET", "PATCH", "DELETE"}, nil}
@@ -104,6 +104,9 @@ var bigOrigins = func() []string {
 func randCase(t *rapid.T, s string) string {
 	b := []byte(s)
 	for i := range b {
+		if b[i] >= 0x80 {
+			continue // letter case is varied in the ASCII letters only
+		}
 		switch rapid.IntRange(0, 3).Draw(t, "case") {
 		case 0:
 			b[i] = byte(strings.ToUpper(string(b[i]))[0])
@@ -144,7 +147,7 @@ func Gen(t *rapid.T) Case {
 			}
 		}
 	default:
-		c.Cfg.AllowHeaders = rapid.SliceOfNDistinct(rapid.SampledFrom(headerPool[:9]), 1, 4, rapid.ID[string]).Draw(t, "ah")
+		c.Cfg.AllowHeaders = rapid.SliceOfNDistinct(rapid.SampledFrom(headerPool[:11]), 1, 4, rapid.ID[string]).Draw(t, "ah")
 	}
 	if rapid.Bool().Draw(t, "hasExposed") {
 		c.Cfg.Exposed = rapid.SliceOfNDistinct(rapid.SampledFrom([]string{"X-Total", "Etag", "X-Rate"}), 1, 2, rapid.ID[string]).Draw(t, "exposed")
@@ -207,7 +210,7 @@ func Gen(t *rapid.T) Case {
 			sb.ExtraOrigins = rapid.Permutation(o).Draw(t, "sibOrigins")[:rapid.IntRange(1, len(o)).Draw(t, "sibNOrigins")]
 		}
 		if !contains(c.Cfg.AllowHeaders, "*") {
-			if h := rest(headerPool[:9], c.Cfg.AllowHeaders); len(h) > 0 {
+			if h := rest(headerPool[:11], c.Cfg.AllowHeaders); len(h) > 0 {
 				sb.ExtraHeaders = rapid.Permutation(h).Draw(t, "sibHeaders")[:rapid.IntRange(1, 3).Draw(t, "sibNHeaders")]
 			}
 		}
@@ -298,6 +301,15 @@ func Gen(t *rapid.T) Case {
 						b := []byte(base)
 						b[lo] ^= 0x20
 						h = string(b)
+					case 3, 4:
+						// an i of the name replaced by a letter that is no case variant of it, although one of the case mappings
+						// lands on it (dotted capital I, dotless i): another name under every reading of "case-insensitive"
+						for _, cand := range append([]string{base}, c.Cfg.AllowHeaders...) {
+							if k := strings.IndexAny(cand, "iI"); k >= 0 {
+								h = cand[:k] + rapid.SampledFrom([]string{"\u0130", "\u0131"}).Draw(t, "nearDotted") + cand[k+1:]
+								break
+							}
+						}
 					}
 					if h == "" {
 						h = base + "-x"
